@@ -369,6 +369,17 @@ fn run_op<const N: usize>(buf: &mut FixedBuf<N>, c: &mut Cur, out: &mut Vec<i128
                 enc_io_usize(o, &r)
             })
         }
+        // 28: write_all in method-call syntax (the provided Write::write_all unless an inherent method shadows it); encoded like write():
+        // Ok(()) as Ok(len)
+        28 => {
+            let d = c.take_list();
+            guarded(out, |o| {
+                #[allow(unused_imports)]
+                use std::io::Write as _;
+                let r: std::io::Result<usize> = lib(|| buf.write_all(&d)).map(|_| d.len());
+                enc_io_usize(o, &r)
+            })
+        }
         27 => {
             let k1 = c.next() as usize;
             let k2 = c.next() as usize;
